@@ -81,7 +81,11 @@ Record Inv (cfg : config) (s : state) : Prop := {
         id < next_id s /\ alookup id (weights s) = None /\ ~ In id (ticker_ids s);
   inv_pending_weights : forall c, In c (pending_cmds s) -> cmd_weight_ok c;
   (* the sketch stays well-formed, so the consumer and the estimates never index out of bounds *)
-  inv_lfu : wf_lfu (lfu s) /\ lfu_reset_at (lfu s) = c_counters cfg
+  inv_lfu : wf_lfu (lfu s) /\ lfu_reset_at (lfu s) = c_counters cfg;
+  (* ADDED (needed for inductiveness): the total stays representable, so that subtracting a charge on the sweeper
+     (used - w with 0 < w <= used) can never trip the overflow check; maintained because every increase goes
+     through the checked [add_i64] on the worker, whose panic makes the worker [Dead] *)
+  inv_used_range : used s <= i64_max
 }.
 
 (** requests that satisfy the documented preconditions (positive explicit weights, a well-formed upsert,
